@@ -113,7 +113,11 @@ func cmdDev(args []string) {
 				}
 			}
 			if !ok && o.Status != "sat" && *dump {
-				fmt.Printf("         %s\n", firstLine(o.Raw))
+				for i, l := range strings.Split(o.Raw, "\n") {
+					if i < 4 {
+						fmt.Printf("         %s\n", l)
+					}
+				}
 			}
 		}
 	}
